@@ -890,3 +890,214 @@ def pmap(fn, items, procs=None):
         except cf.process.BrokenProcessPool as e:
             raise core.BrokenCheck("a worker process died (killed from outside or crashed): %s" % e)
     return out
+
+
+# ----------------------------------------------------------------------------- C16 layout
+
+def parse_commands(text):
+    """Logical commands of a script the way Builder.tokenize / Builder.build group physical lines:
+    backslash-newline joins lines, a line whose first token is a reserved word continues the previous
+    command (not after `load`), blank / comment-only lines are skipped.  -> [dict(indent, tokens)]"""
+    phys = text.split("\n")
+    if phys and phys[-1] == "":
+        phys.pop()
+        ends = [True] * len(phys)
+    else:
+        ends = [True] * (len(phys) - 1) + [False]     # last line has no newline
+    logical = []
+    i = 0
+    while i < len(phys):
+        line = phys[i]
+        indent = line[:len(line) - len(line.lstrip())]
+        parts = []
+        while line.endswith("\\") and ends[i]:
+            parts.append(line.rstrip().rstrip("\\").strip())
+            i += 1
+            line = phys[i] if i < len(phys) else ""
+        parts.append(line.rstrip())
+        i += 1
+        toks = tokenize_line(" ".join(parts))[1]
+        if toks:
+            logical.append((indent, toks))
+    cmds = []
+    for indent, toks in logical:
+        if cmds and toks[0] in RESERVED and cmds[-1]["tokens"][0] != "load":
+            cmds[-1]["tokens"].extend(toks)
+        else:
+            cmds.append(dict(indent=indent, tokens=list(toks)))
+    return cmds
+
+
+def render(cmds, styles=None):
+    """Text for `cmds`; styles[i] may hold indent, comment, pre (list of raw lines put before the command),
+    breaks ({token position: 'bs' | 'conn'}), seg_comments (comment after every connective-continued piece)."""
+    out = []
+    for i, c in enumerate(cmds):
+        st = (styles or {}).get(i, {})
+        indent = st.get("indent", c["indent"])
+        out.extend(st.get("pre", []))
+        toks = c["tokens"]
+        breaks = st.get("breaks", {})
+        line = indent + toks[0]
+        for p in range(1, len(toks)):
+            kind = breaks.get(p)
+            if kind == "bs":
+                out.append(line + " \\")
+                line = indent + "    " + toks[p]
+            elif kind == "conn":
+                if st.get("seg_comments"):
+                    line += "  " + st["seg_comments"]
+                out.append(line)
+                line = indent + "  " + toks[p]
+            else:
+                line += " " + toks[p]
+        if st.get("comment"):
+            line += "  " + st["comment"]
+        out.append(line)
+    return "\n".join(out) + "\n"
+
+
+INDENTS = ["", "  ", "       ", "\t"]
+COMMENTS = ["# note", "# it's a \"quoted\" 'remark' with to from if"]
+PRELINES = ["", "# comment line", "     # indented \"comment"]
+
+
+def conn_positions(toks):
+    if toks[0] == "load":
+        return []
+    return [p for p in range(1, len(toks)) if toks[p] in RESERVED]
+
+
+def single_edits(cmds):
+    """Every single layout edit at every position.  Yields (label, styles)."""
+    for i, c in enumerate(cmds):
+        toks = c["tokens"]
+        head = "cmd %d `%s`" % (i, " ".join(toks)[:60])
+        for ind in INDENTS:
+            if ind != c["indent"]:
+                yield "%s: indent %r" % (head, ind), {i: dict(indent=ind)}
+        for cm in COMMENTS:
+            yield "%s: trailing comment %r" % (head, cm), {i: dict(comment=cm)}
+        for pl in PRELINES:
+            yield "%s: line %r inserted before" % (head, pl), {i: dict(pre=[pl])}
+        for p in range(1, len(toks)):
+            yield "%s: backslash before token %d" % (head, p), {i: dict(breaks={p: "bs"})}
+        for p in conn_positions(toks):
+            yield "%s: newline before connective %d `%s`" % (head, p, toks[p]), {i: dict(breaks={p: "conn"})}
+    if cmds:
+        yield "blank line appended at end", {len(cmds) - 1: dict(post=True)}
+
+
+def all_at_once(cmds):
+    """The all-at-once variant of each kind, plus everything combined.  Yields (label, styles)."""
+    n = len(cmds)
+    yield "normalised: one command per line", {}
+    for ind in INDENTS:
+        yield "all: indent %r" % ind, {i: dict(indent=ind) for i in range(n)}
+    for cm in COMMENTS:
+        yield "all: trailing comment %r" % cm, {i: dict(comment=cm) for i in range(n)}
+    yield "all: blank and comment lines before every command", {i: dict(pre=list(PRELINES)) for i in range(n)}
+    yield "all: backslash at every token boundary", \
+        {i: dict(breaks={p: "bs" for p in range(1, len(c["tokens"]))}) for i, c in enumerate(cmds)}
+    yield "all: newline before every connective", \
+        {i: dict(breaks={p: "conn" for p in conn_positions(c["tokens"])}) for i, c in enumerate(cmds)}
+    comb = {}
+    for i, c in enumerate(cmds):
+        br = {}
+        conns = set(conn_positions(c["tokens"]))
+        for p in range(1, len(c["tokens"])):
+            br[p] = "conn" if p in conns else ("bs" if p % 2 else None)
+        comb[i] = dict(indent=INDENTS[(i % 3) + 1] if c["tokens"][0] != "house" else "", comment=COMMENTS[i % 2],
+                       pre=[PRELINES[i % 3]], breaks={p: k for p, k in br.items() if k},
+                       seg_comments=COMMENTS[(i + 1) % 2])
+    yield "all: every kind combined", comb
+
+
+def render_variant(cmds, styles):
+    post = any(isinstance(v, dict) and v.get("post") for v in styles.values())
+    text = render(cmds, styles)
+    if post:
+        text += "\n   \n# trailing comment line\n"
+    return text
+
+
+RUNNABLE = odict([
+    ("flat", """house h
+init .p.count with 0
+framer main be active first start
+  frame start
+    do rec with tag "start" at enter
+    do rec with tag "start-r"
+    inc .p.count with 1
+    go next if elapsed >= 0.25
+  frame mid
+    do rec with tag "mid" at enter
+    aux helper
+    go done if .p.count >= 3
+    go start if elapsed >= 0.25
+  frame done
+    do rec with tag "done" at enter
+    bid stop me
+framer helper be aux first h1
+  frame h1
+    do rec with tag "h1" at enter
+    go h2
+  frame h2
+    do rec with tag "h2" at enter
+    do rec with tag "h2-x" at exit
+"""),
+    ("nested", """house h
+init .q.level with value 1
+init .q.pt with x 1 y 2
+framer top be active first leaf1 at 0.125
+  frame upper
+    do rec with tag "upper" at enter
+    do rec with tag "upper-x" at exit
+    put 5 into .q.five
+    go leaf3 if .q.level >= 4
+  frame leaf1 in upper
+    do rec with tag "leaf1" at enter
+    timeout 0.25
+  frame leaf2 in upper
+    let me if .q.five == 5 +- 0.5
+    do rec with tag "leaf2" at enter
+    inc .q.level with 1
+    copy x in .q.pt into y in .q.pt
+    set elapsed with 0.375
+    repeat 2
+  frame leaf3
+    do rec with tag "leaf3" at enter
+    go leaf1 if elapsed >= goal
+    go leaf1 if .q.level is updated in frame leaf2 by mark
+framer side be inactive first s1
+  frame s1
+    do rec with tag "s1"
+    print side is running
+"""),
+])
+
+
+def corpus_program():
+    """One program holding as many corpus commands as build together (greedy, deterministic): gives the
+    layout checks every verb and clause form.  Returns the script text."""
+    slots = odict((k, []) for k in ("TOP", "LOGGER", "LOG", "FRAMER", "FRAME"))
+
+    def text():
+        out = []
+        for ln in SCAFFOLD.split("\n"):
+            if ln.startswith("@"):
+                out.extend(slots[ln[1:]])
+            else:
+                out.append(ln)
+        return "\n".join(out)
+
+    for verb, cmds in CORPUS.items():
+        if verb in ("load", "house"):
+            continue
+        slot = SLOT_OF_VERB.get(verb, "FRAME")
+        for c in cmds:
+            add = ["  " + c] + (["frame ga"] if verb == "framer" else [])
+            slots[slot].extend(add)
+            if not build(text(), extra_files=LOADED, limit=10.0).ok:
+                del slots[slot][-len(add):]
+    return text()
